@@ -73,7 +73,7 @@ def kani_obligations(h, prop):
         props = re.findall(r"C\d{2,3}", mm.group(1))
         if prop in props:
             out["kani:%s:[%s]" % (h.name, mm.group(2))] = True
-    for helper in re.findall(r"\b(chk_\w+)\(", body):
+    for helper in sorted(set(re.findall(r"\b((?:chk|run)_\w+)\(", body))):
         hm = re.search(r"fn %s\b.*?\n    \}" % re.escape(helper), src, re.S)
         if hm:
             for mm in re.finditer(r'"\[((?:C\d{2,3}[ ,]*)+)([\w\-\.]*)\]', hm.group(0)):
